@@ -149,6 +149,7 @@ func GenPhysical(t *rapid.T, d *Deck) {
 		nn = rapid.Permutation(nn).Draw(t, "notesNumbers")
 		for j, i := range withNotes {
 			d.Slides[i].Notes.Part = fmt.Sprintf("ppt/notesSlides/notesSlide%d.xml", nn[j])
+			d.Slides[i].Notes.AbsTarget = rapid.IntRange(0, 4).Draw(t, "notesAbsTarget") == 0
 		}
 	}
 	ids := make([]int, n)
